@@ -189,10 +189,10 @@ fn one_copied(rep: &mut Report, len: usize, only: &Option<Vec<u8>>, wantdir: Opt
 }
 
 pub fn run(tier: Tier, rep: &mut Report) -> (String, String) {
-    let maxlen = tier.pick(9, 12, 3);
+    let maxlen = tier.pick(16, 19, 3);
     let mut jobs: Vec<(&str, usize, usize)> = Vec::new();
     for ty in ["u8", "unit", "String", "[u16;2]"] {
-        let ml = if ty == "u8" { maxlen } else { maxlen.min(tier.pick(7, 9, 2)) };
+        let ml = if ty == "u8" { maxlen } else { maxlen.min(tier.pick(9, 11, 2)) };
         for len in 0..=ml {
             for size in 0..=len + 1 {
                 jobs.push((ty, len, size));
@@ -218,7 +218,7 @@ pub fn run(tier: Tier, rep: &mut Report) -> (String, String) {
     rep.merge(r);
     (
         "state = (iterator kind, direction variant, element type, slice length, size, history of next/next_back steps); children are made from copy(); every step and every state accessor (as_slice/remainder) is compared with the std iterator of the same name by address and length; size 0 must panic; traces = complete histories (both ends report None); non-trivial = length >= 3 and more than two complete histories".into(),
-        format!("kinds: iter, iter_copied, windows, chunks, rchunks, chunks_exact, rchunks_exact, array_chunks::<1..=7>; variants: forward, .rev(), .rev().rev(); element types u8 (distinct) with len 0..={maxlen}, unit/String/[u16;2] with len 0..={}; sizes 0..=len+1", maxlen.min(tier.pick(7, 9, 3))),
+        format!("kinds: iter, iter_copied, windows, chunks, rchunks, chunks_exact, rchunks_exact, array_chunks::<1..=7>; variants: forward, .rev(), .rev().rev(); element types u8 (distinct) with len 0..={maxlen}, unit/String/[u16;2] with len 0..={}; sizes 0..=len+1", maxlen.min(tier.pick(9, 11, 3))),
     )
 }
 
